@@ -10,7 +10,7 @@ from ..cfg import NORMAL_KINDS, Label, Node
 from ..exc import KEYERROR
 from ..model import FuncInfo
 from ..queries import between, can_follow, count_paths, reach
-from .lib import GROUPS, META_CAN, META_RUN, RUN, Ctx, dominated_by_completion, field_of
+from .lib import GROUPS, META_CAN, META_RUN, RUN, Ctx, dominated_by_completion, field_of, key_lookup_guarded, r_not_found_only_when_absent
 from .shared import expr_role
 
 REG_OF_FIELD = {"_tasks_running": "R", "_tasks_cancelled": "C", "_tasks_ended": "E"}
@@ -199,7 +199,8 @@ def r_who_cancel(ctx: Ctx, rule: str):
                     fr, fenv, it = _caller_frame(ctx, c.func, c.env, it0)
                     if fr is f and fenv is None and isinstance(it, ast.Name):
                         src = it.id
-                    elif fr is f and fenv is None and isinstance(it, (ast.ListComp, ast.DictComp)):
+                    elif fr is f and fenv is None and (isinstance(it, (ast.ListComp, ast.DictComp, ast.GeneratorExp)) or (
+                            isinstance(it, ast.Call) and isinstance(it.func, ast.Name) and it.func.id in ("tuple", "list") and len(it.args) == 1)):
                         src = it  # the collection of look-ups written in place (as the argument of a helper)
             if src is not None and (not isinstance(src, str) or src in sc.defs):
                 ok = _collects_all_lookups(ctx, f, src, varargs)
@@ -226,7 +227,12 @@ def _collects_all_lookups(ctx: Ctx, f: FuncInfo, name, varargs: Optional[str]) -
         return isinstance(e, ast.Call) and any(t.name == "_get_running_task" for t in sc.callee(e).targets) and len(e.args) == 1 \
             and isinstance(e.args[0], ast.Name) and e.args[0].id == var
 
-    if isinstance(v, (ast.ListComp,)) and len(v.generators) == 1:
+    if isinstance(v, ast.Call) and isinstance(v.func, ast.Name) and v.func.id in ("tuple", "list") and len(v.args) == 1 and not v.keywords \
+            and isinstance(v.args[0], (ast.GeneratorExp, ast.ListComp)):
+        v = v.args[0]  # tuple(<look-up> for ...): built in full, in order, before anything else runs
+    elif isinstance(v, ast.GeneratorExp):
+        return False  # a bare generator looks the ids up one by one while the tasks before are already being cancelled
+    if isinstance(v, (ast.ListComp, ast.GeneratorExp)) and len(v.generators) == 1:
         gen = v.generators[0]
         if gen.ifs:
             return False
@@ -440,7 +446,8 @@ def r_cancel_group_entry(ctx: Ctx, rule: str):
         effects = ctx.nodes(f, lambda n: any(e.kind in ("cancel", "insert", "remove", "clear", "assign", "maybe-cancel") and e.path.startswith("self") for e in ctx.trans_effects(n)) and n not in pops)
         for e in ctx.distinct_sites(effects):
             rep.ob(rule, "every effect of cancel_group comes after the group was found and removed", dominated_by_completion(g, pops, e), node=e)
-        rexits = [x for x in g.raise_exits.values() if x.pred]
+        # (a keyed look-up behind a test that found the key - `if D.get(k) is None: raise ...; del D[k]` - raises no KeyError)
+        rexits = [x for x in g.raise_exits.values() if x.pred and not (x.tok[0] == KEYERROR and all(key_lookup_guarded(ctx, f, p_) for p_, _l in x.pred))]
         names = {x.tok[0].rpartition(".")[2] for x in rexits}
         rep.ob(rule, "an unknown group name raises TaskGroupNotFound (and nothing else escapes)", names == {"TaskGroupNotFound"}, func=f, construct="raising exits",
                detail=f"raising exits: {sorted(names)}")
@@ -448,8 +455,11 @@ def r_cancel_group_entry(ctx: Ctx, rule: str):
             traces = [e for e in effects + pops if x in reach([s for s, lab in e.succ if lab[0] in NORMAL_KINDS])]
             rep.ob(rule, "a rejected cancel_group changed nothing", not traces, func=f, construct=f"raise exit {x.tok[0].rpartition('.')[2]}",
                    detail="" if not traces else f"{traces[0].text(50)} completes before the raise")
+        r_not_found_only_when_absent(ctx, rule, f, GROUPS, "TaskGroupNotFound")
         for p in ctx.distinct_sites(pops):
             key = p.ast.args[0] if isinstance(p.ast, ast.Call) and p.ast.args else None
+            if p.op == "del" and isinstance(p.ast, ast.Delete) and len(p.ast.targets) == 1 and isinstance(p.ast.targets[0], ast.Subscript):
+                key = p.ast.targets[0].slice
             rep.ob(rule, "the group removed is the one named by the caller", expr_role(ctx, f, key) == "GROUP", node=p)
         # helper gets the same name and the register just removed
         for h in ctx.distinct_sites(ctx.nodes(f, lambda n: ctx.is_call_to(n, "_cancel_and_remove_all_from_group"))):
